@@ -59,6 +59,9 @@ pub struct St {
 pub struct SimEngine {
     pub st: Arc<Mutex<St>>,
     persisted: Arc<sync::watch::Sender<BlockStoreState>>,
+    /// Payload budget: when present, `propose_payload` waits (like a payload manager waiting for transactions or
+    /// for the block time) until the harness grants a permit. `None` = a payload is always available.
+    pub proposals: Option<Arc<tokio::sync::Semaphore>>,
 }
 
 fn store_state(first: u64, blocks: &BTreeMap<u64, Block>) -> BlockStoreState {
@@ -89,7 +92,7 @@ impl SimEngine {
             tag: 0,
         };
         let persisted = Arc::new(sync::watch::channel(store_state(first, &st.blocks)).0);
-        Self { st: Arc::new(Mutex::new(st)), persisted }
+        Self { st: Arc::new(Mutex::new(st)), persisted, proposals: None }
     }
 
     fn publish(&self, st: &St) {
@@ -220,7 +223,14 @@ impl EngineInterface for SimEngine {
         Ok(())
     }
 
-    async fn propose_payload(&self, _ctx: &ctx::Ctx, number: BlockNumber) -> ctx::Result<Payload> {
+    async fn propose_payload(&self, ctx: &ctx::Ctx, number: BlockNumber) -> ctx::Result<Payload> {
+        if let Some(sem) = &self.proposals {
+            match ctx.wait(sem.acquire()).await {
+                Ok(Ok(permit)) => permit.forget(),
+                Ok(Err(_)) => return Err(anyhow::format_err!("payload budget closed").into()),
+                Err(ctx::Canceled) => return Err(ctx::Canceled.into()),
+            }
+        }
         let st = self.st.lock().unwrap();
         Ok(Self::payload_for(number.0, st.tag, st.propose_size))
     }
